@@ -33,6 +33,19 @@
 //!                demonstrations of seeded C15_3, every shape in front of every token); cmt.random[.line].
 //!                Failures are shrunk to the fewest insertion points and the shortest comment.
 //!                cmt.reference_scanner_vs_model: the harness's notion of "well nested" against the model's.
+//!   strlit.*     ORACLE ONLY (real lexer + parser + router): a string literal means what was written.  For a string
+//!                VALUE v and each delimiter q the canonical literal (delimiter doubled, backslash doubled, newline as
+//!                `\n`, every other character — the quote of the other kind included, alone or in runs — as it is) must
+//!                lex to ONE String token with value v (alone and inside a statement), the parsed statement must carry
+//!                v, and INSERT / SELECT … WHERE v = literal / UPDATE / NODE CREATE through the text path must store,
+//!                find and read back what the direct engine call with v stores (third clause).  strlit.directed (the
+//!                shortest values that need "only the DELIMITER is un-doubled": `""` in '…', `''` in "…", JSON with an
+//!                empty string, and their neighbours) and strlit.exhaustive (every value over {a ' " \} up to length 4,
+//!                both delimiters) run FIRST; strlit.random (0..6 pieces rich in runs of both quotes and backslashes,
+//!                JSON / prose shapes); strlit.body (arbitrary bodies, every escape spelling, meaning by the reference
+//!                function written from the model's `litValue`).  Class = the first layer that fails; failing values
+//!                are shrunk.  strlit.reference_vs_model: the harness's renderer / meaning against Lex.litRender /
+//!                Lex.litValue (ops `strrender`, `strval`); lex.strings: the literals through the lexer model.
 //!   known.*      directed reproduction of the listed KNOWN finding and directed regression inputs of
 //!                the two FIXED ones, before any random stream.
 //!   soup         random token lists over the model alphabet (mostly ill-formed): Ok/Err, error kind
